@@ -1,1 +1,10 @@
-/- C03 — property theorems (stub: the slice is not built yet). -/
+import GB.C03.Spec
+/- C03 — property theorems. -/
+open GB GB.C03
+
+/-- What fix D2 removed: `/v/%2541` parses to Path `/v/%41`, RawPath empty; routing on Path decodes again. -/
+theorem C03_prefix_double_decode :
+    setPath [47, 118, 47, 37, 50, 53, 52, 49] = some ⟨[47, 118, 47, 37, 52, 49], []⟩ ∧
+    pathChoicePreFix ⟨[47, 118, 47, 37, 52, 49], []⟩ = [47, 118, 47, 37, 52, 49] ∧
+    pathChoice ⟨[47, 118, 47, 37, 52, 49], []⟩ = [47, 118, 47, 37, 50, 53, 52, 49] := by
+  decide
